@@ -24,7 +24,7 @@ type c21Cfg struct {
 	SyncSteps   int    `json:"sync_steps"`
 	PostSteps   int    `json:"post_steps"`
 	FinishMode  string `json:"finish"`   // seq | racing
-	RaceTrigger int    `json:"trigger"`  // racing: the rejections run inside the k-th chain callback of FinishStateSync (0 = unsynchronised)
+	RaceTrigger int    `json:"trigger"`  // racing: 1 = the rejections run inside a chosen chain callback of FinishStateSync, 0 = unsynchronised
 	Finalize    bool   `json:"finalize"` // decide every invalid processing block before the end
 }
 
@@ -360,7 +360,13 @@ func (e *engine) raceFinish(cfg c21Cfg, targetIdx int, x *node, call func()) fin
 	for _, s := range owed {
 		s.st = stProcessing
 	}
-	e.op('F', "FinishStateSync (racing the %d rejections after accept of %s) target=%s trigger=%d", len(owed), x.b, e.accepted[targetIdx].b, cfg.RaceTrigger)
+	// the window is opened in a uniformly chosen chain callback of the finish:
+	// 2 per reprocessed block (execute, accept), then 1 per re-verified block
+	trigger := 0
+	if cfg.RaceTrigger > 0 {
+		trigger = 1 + e.rng.IntN(2*len(plan.reprocess)+len(plan.expectRun))
+	}
+	e.op('F', "FinishStateSync (racing the %d rejections after accept of %s) target=%s reprocess=%d reverify=%d trigger=%d", len(owed), x.b, e.accepted[targetIdx].b, len(plan.reprocess), len(plan.expectRun), trigger)
 	doRejects := func() {
 		for _, s := range owed {
 			s.vacuous = true
@@ -368,15 +374,29 @@ func (e *engine) raceFinish(cfg c21Cfg, targetIdx int, x *node, call func()) fin
 			e.reject(s)
 		}
 	}
+	// The callback opens the window and keeps it open until the rejections
+	// are done - or gives up after a bounded number of short naps, because a
+	// wrapper that serialises Reject with FinishStateSync legitimately keeps
+	// the engine waiting until the finish is over. The bound only steers the
+	// schedule; no verdict depends on it.
 	reached := make(chan struct{})
-	resume := make(chan struct{})
-	var fired atomic.Bool
+	rejectsDone := make(chan struct{})
+	var inside atomic.Bool
 	if cfg.RaceTrigger > 0 {
 		var n atomic.Int32
 		e.chain.setOnCallback(func() {
-			if int(n.Add(1)) == cfg.RaceTrigger && fired.CompareAndSwap(false, true) {
-				reached <- struct{}{}
-				<-resume
+			if int(n.Add(1)) != trigger {
+				return
+			}
+			close(reached)
+			for i := 0; i < 60; i++ {
+				select {
+				case <-rejectsDone:
+					inside.Store(true)
+					return
+				default:
+					time.Sleep(20 * time.Microsecond)
+				}
 			}
 		})
 	}
@@ -384,10 +404,19 @@ func (e *engine) raceFinish(cfg c21Cfg, targetIdx int, x *node, call func()) fin
 	if cfg.RaceTrigger > 0 {
 		select {
 		case <-reached:
-			e.stat["race_rejects_inside_finish"]++
 			doRejects()
-			resume <- struct{}{}
+			close(rejectsDone)
 			<-done
+			if len(owed) == 0 {
+				e.stat["race_nothing_to_reject"]++
+			} else if inside.Load() {
+				e.stat["race_rejects_inside_finish"]++
+				if trigger > 2*len(plan.reprocess) {
+					e.stat["race_rejects_inside_reverification"]++
+				}
+			} else {
+				e.stat["race_rejects_kept_out_of_finish"]++
+			}
 		case <-done:
 			e.stat["race_trigger_not_reached"]++
 			doRejects()
@@ -480,7 +509,7 @@ func runC21Case(t testing.TB, r *kit.Run, idx int, seed [2]uint64) c20Result {
 	}
 	if rng.IntN(100) < 35 {
 		cfg.FinishMode = "racing"
-		cfg.RaceTrigger = rng.IntN(6)
+		cfg.RaceTrigger = min(rng.IntN(5), 1)
 	}
 	cc := &caseCtx{r: r, prop: "C21", wit: caseWitness{Case: idx, Seed: seed, Cfg: cfg}}
 	genesis := makeBlk(ids.Empty, 0, 1_000, uint64(idx), false, 0)
@@ -509,8 +538,28 @@ func runC21Case(t testing.TB, r *kit.Run, idx int, seed [2]uint64) c20Result {
 	if !e.dead {
 		var racing *node
 		if cfg.FinishMode == "racing" {
-			// needs an accept whose rejections can race the finish
-			if x := e.acceptCandidate(); x != nil {
+			// needs an accept whose rejections can race the finish: make sure the
+			// tip has a valid child x, x has conflicting siblings (some with
+			// children) and, often, processing descendants to re-verify
+			for i := 0; i < 2 && !e.dead; i++ {
+				if s := e.parseNew(e.last, e.rng.IntN(3) == 0, 0); s != nil {
+					e.verify(s)
+					if !e.dead && e.rng.IntN(2) == 0 {
+						if c := e.parseNew(s, e.rng.IntN(3) == 0, 0); c != nil {
+							e.verify(c)
+						}
+					}
+				}
+			}
+			if x := e.acceptCandidate(); x != nil && !e.dead {
+				for d, par := 0, x; d < e.rng.IntN(3) && !e.dead; d++ {
+					c := e.parseNew(par, e.rng.IntN(4) == 0, 0)
+					if c == nil {
+						break
+					}
+					e.verify(c)
+					par = c
+				}
 				racing = x
 			} else {
 				e.stat["race_no_candidate"]++
@@ -564,7 +613,7 @@ func runC21Case(t testing.TB, r *kit.Run, idx int, seed [2]uint64) c20Result {
 
 func TestC21(t *testing.T) {
 	r := kit.Start(t, "C21", "exploration")
-	r.Rule("case = VM config (caches in {1,2,4,128}, async accept lag bound in {0,1,3}), VM started without state (70%) or with state and 0..3 normally executed blocks (30%), StartStateSync at the last accepted block or at a block 1..5 heights ahead, 4..39 vacuous engine actions (parse+verify valid/invalid blocks on processing/last-accepted parents, re-parse, set preference, accept 1..3 valid blocks with transitive rejection), FinishStateSync at a target anywhere between the start and the tip - from the engine thread, or (35%) concurrently with the rejections that follow an accept, run inside the k-th chain callback of the finish (k in 0..5) - then 0..24 normal engine actions and (80%) consensus deciding every invalid processing block. " +
+	r.Rule("case = VM config (caches in {1,2,4,128}, async accept lag bound in {0,1,3}), VM started without state (70%) or with state and 0..3 normally executed blocks (30%), StartStateSync at the last accepted block or at a block 1..5 heights ahead, 4..39 vacuous engine actions (parse+verify valid/invalid blocks on processing/last-accepted parents, re-parse, set preference, accept 1..3 valid blocks with transitive rejection), FinishStateSync at a target anywhere between the start and the tip - from the engine thread, or (35%) concurrently with the rejections that follow an accept, run inside a uniformly chosen chain callback of the finish (or unsynchronised) - then 0..24 normal engine actions and (80%) consensus deciding every invalid processing block. " +
 		"Non-trivial = the finish reprocessed accepted blocks or re-verified / skipped processing blocks; distinct = (config, action kind sequence).")
 	r.Assume(
 		"the state of a block is modelled as the hash chain H(parent state || block id); the target's state handed to FinishStateSync is the one a node that executed the chain would have",
@@ -588,7 +637,7 @@ func TestC21(t *testing.T) {
 		r.Finish(0)
 		return
 	}
-	n := r.N(2500, 60000)
+	n := r.N(2000, 40000)
 	workers := r.N(2, 6)
 	master := r.Rand("cases")
 	seeds := make([][2]uint64, n)
@@ -631,5 +680,5 @@ func TestC21(t *testing.T) {
 	for k, v := range p.Hits() {
 		r.Count("hook_"+k, int(v))
 	}
-	r.Finish(r.N(800, 20000))
+	r.Finish(r.N(800, 15000))
 }
